@@ -253,7 +253,7 @@ class QModuleMixin(ABC):
         qweight = self.qweight
         if qweight is not None:
             # Replace float weights by quantized weights
-            self.weight = torch.nn.Parameter(qweight)
+            self.weight = torch.nn.Parameter(qweight, requires_grad=False)
 
     @property
     def frozen(self):
